@@ -1761,6 +1761,142 @@ class M2mSpec:
             bad('reads-changed-the-state', m2m_show(q0), m2m_show(m2m_snapshot(m)), read=True)
 
 
+# ------------------------------------------------------------------------------------------------------
+# Sources that fail part-way.  update() / item assignment consume an iterable the caller supplies ("one-shot iterators"
+# in the quantifier); when it raises after some good rows, the exception reaches the caller and the object must still be
+# a many-to-many relation: forward and inverse mirror each other and hold the previous pairs plus a prefix of the good
+# rows.  Afterwards every pair can be removed again.  Rows that are no pairs and unhashable members are arguments outside
+# the quantifier ("hashable keys and values ... lists of pairs"): on the unchanged tree add(1, []) leaves an empty entry
+# for 1 behind - observed, not demanded; those failure kinds are kept for replays but not enumerated.
+
+FAIL_GOOD = ((0, 0), (1, 0), (2, 1), (0, 2))
+FAIL_KINDS = ('generator-raises',)
+FAIL_KINDS_OUTSIDE = ('row-of-one', 'row-of-three', 'row-None', 'unhashable-value', 'unhashable-key')
+FAIL_ENTRIES = ('update', 'inv.update', 'setitem', 'inv.setitem')
+
+
+class SourceFails(Exception):
+    pass
+
+
+def fail_states():
+    for n in range(4):
+        for c in itertools.combinations(PAIRS, n):
+            yield c
+
+
+def fail_prefixes():
+    for n in range(4):
+        for seq in itertools.permutations(FAIL_GOOD, n):
+            yield seq
+
+
+def fail_source(good, kind, values_only):
+    """A generator over the good rows that then fails.  values_only: members for item assignment (m[k] = source)."""
+    def gen():
+        for k, v in good:
+            yield v if values_only else (k, v)
+        if kind == 'generator-raises':
+            raise SourceFails('the source failed')
+        if values_only:
+            yield []                     # the one kind of bad member an item assignment can meet
+            return
+        yield {'row-of-one': (1,), 'row-of-three': (1, 2, 0), 'row-None': None, 'unhashable-value': (1, []),
+               'unhashable-key': ([], 1)}[kind]
+    return gen()
+
+
+def fail_check(cls, spec, state, good, kind, entry):
+    out = []
+    name = 'ManyToMany.%s(source failing part-way:%s)' % (entry, kind)
+
+    def bad(what, exp, obs, read=False):
+        out.append(('C17|op:%s|%s' % (name, what), exp, obs))
+
+    m = cls(list(state))
+    x = m.inv if entry.startswith('inv.') else m
+    P = frozenset(state)
+    Px = tr_pairs(P) if entry.startswith('inv.') else P
+    setitem = entry.endswith('setitem')
+    try:
+        if setitem:
+            x[0] = fail_source([(0, v) for _, v in good], kind, True)
+        else:
+            x.update(fail_source(good, kind, False))
+        raised = None
+    except Hang:
+        raise
+    except BaseException as e:          # noqa
+        raised = e
+    if raised is None:
+        bad('result', 'the failure of the source reaches the caller', 'returned normally')
+        return out
+    if kind == 'generator-raises' and not isinstance(raised, SourceFails):
+        bad('result', 'SourceFails (raised by the source)', type(raised).__name__)
+    if not spec.invariants(m, bad):
+        return out
+    got = m2m_pairs_public(x)
+    if setitem:
+        rows = [(0, v) for _, v in good]
+        base = frozenset(p for p in Px if p[0] != 0)
+        allowed = [Px] + [Px | frozenset(rows[:i]) for i in range(len(rows) + 1)] \
+            + [base | frozenset(rows[:i]) for i in range(len(rows) + 1)]
+    else:
+        allowed = [Px | frozenset(good[:i]) for i in range(len(good) + 1)]
+    if got not in allowed:
+        bad('contents', 'previous pairs plus a prefix of the good rows: %r' % sorted(allowed[-1]), sorted(got))
+        return out
+    for k, v in sorted(got):
+        try:
+            x.remove(k, v)
+        except Hang:
+            raise
+        except Exception as e:
+            bad('then-remove', 'remove(%r, %r) of a present pair returns' % (k, v), 'raised ' + type(e).__name__)
+            return out
+    if not spec.invariants(m, bad):
+        return out
+    if m2m_pairs_public(m):
+        bad('then-remove', 'empty after removing every pair', sorted(m2m_pairs_public(m)))
+    return out
+
+
+def fail_cases():
+    for state in fail_states():
+        for good in fail_prefixes():
+            for kind in FAIL_KINDS:
+                for entry in FAIL_ENTRIES:
+                    if entry.endswith('setitem') and kind not in ('generator-raises', 'unhashable-value'):
+                        continue
+                    yield state, good, kind, entry
+
+
+def fail_case(state, good, kind, entry):
+    return {'kind': 'm2m-failing-source', 'state': [list(p) for p in state], 'good_rows': [list(p) for p in good],
+            'failure': kind, 'entry': entry}
+
+
+def fail_shard(arg):
+    from boltons.dictutils import ManyToMany
+    idx, nshards = arg
+    t = inputs.Tally()
+    spec = M2mSpec(ordered=False)
+    cur = None
+    try:
+        with Budget(600):
+            for i, cur in enumerate(fail_cases()):
+                if i % nshards != idx:
+                    continue
+                case = fail_case(*cur)
+                t.count(nontrivial=bool(cur[1]), sample=case)
+                for sig, exp, obs in fail_check(ManyToMany, spec, *cur):
+                    t.bad(sig, case, exp, obs)
+    except Hang:
+        t.bad('C17|op:ManyToMany.%s(source failing part-way:%s)|terminates' % (cur[3], cur[2]), fail_case(*cur), 'returns',
+              'shard exceeded its 600 s CPU budget')
+    return t
+
+
 # ======================================================================================================
 # FrozenDict (E2 matrix)
 # ======================================================================================================
@@ -2041,6 +2177,35 @@ def fd_check_content(FrozenDict, FrozenHashError, content, t, only=None):
             outs.append(type(e).__name__)
         if outs != ['FrozenHashError'] * 4:
             bad('hash|unhashable-value-raises-FrozenHashError-every-time', 'hash', ['FrozenHashError'] * 4, outs)
+        # equality is dict equality, whatever was tried on the operands before: two equal FrozenDicts with an unhashable
+        # value, hash() attempted (and refused) on none / one / both of them, and derived copies of a refused one
+        for tried in ('neither', 'left', 'right', 'both'):
+            a, b = FrozenDict(fd_items(content)), FrozenDict(fd_items(content))
+            if tried in ('left', 'both'):
+                fd_hash_outcome(a)
+            if tried in ('right', 'both'):
+                fd_hash_outcome(b)
+            t.count(nontrivial=nontriv)
+            try:
+                res = [a == b, a != b, a == dict(fd_items(content)), dict(fd_items(content)) == a]
+            except Exception as e:
+                res = 'raised ' + type(e).__name__
+            if res != [True, False, True, True]:
+                bad('eq|after-refused-hash(%s)' % tried, 'hash', [True, False, True, True], res)
+        for route, mk in (('updated()', lambda x: x.updated()), ('copy()', lambda x: x.copy()),
+                          ('copy.deepcopy', copy.deepcopy), ('pickle', lambda x: pickle.loads(pickle.dumps(x))),
+                          ('FrozenDict(fd)', FrozenDict)):
+            a = FrozenDict(fd_items(content))
+            fd_hash_outcome(a)
+            t.count(nontrivial=nontriv)
+            try:
+                b = mk(a)
+                fd_hash_outcome(b)
+                res = [a == b, b == a, a != b]
+            except Exception as e:
+                res = 'raised ' + type(e).__name__
+            if res != [True, True, False]:
+                bad('eq|derived-after-refused-hash:%s' % route, 'hash', [True, True, False], res)
 
     # ---- C. derivations: equal values, original untouched ---------------------------------------------
     def derive(name, fn, want, label=None, value=True):
@@ -2257,6 +2422,11 @@ def run(ctx):
         '(constructors, unique, update, |=, item assignment, copies) x nothing / one removal or re-assignment of each '
         'element on either side; contents, mirror and identity of what lookups return; non-trivial: NaN occurs'
         % (3 if quick else 4, len(ODD_FORMS))))
+    inputs.run_shards(ctx, fail_shard, [(i, 16) for i in range(16)], part='manytomany-failing-sources', rule=(
+        'every relation of <= 3 pairs over {0,1,2}^2 x every sequence of <= 3 good rows out of %r followed by a failure (%s) x '
+        'entry point (%s); the exception reaches the caller, mirror and contents (previous pairs plus a prefix of the good '
+        'rows) hold, every pair can be removed afterwards; non-trivial: at least one good row before the failure'
+        % (list(FAIL_GOOD), ', '.join(FAIL_KINDS), ', '.join(FAIL_ENTRIES))))
     values = FD_VALUES_QUICK if quick else FD_VALUES_THOROUGH
     n = 16
     inputs.run_shards(ctx, fd_shard, [(values, i, n) for i in range(n)], part='frozendict-matrix', rule=(
@@ -2323,6 +2493,15 @@ def replay(ctx, data):
             with Budget(OP_BUDGET):
                 found = oto_identity_check(OneToOne, oto_identity_spec(), [tuple(p) for p in case['state']], stored,
                                            tup(case['op']), modes)
+        except Hang:
+            return ['%s: no return within %d s of CPU time' % (data.get('signature'), OP_BUDGET)]
+        return ['%s expected=%r observed=%r' % f for f in found]
+    if kind == 'm2m-failing-source':
+        from boltons.dictutils import ManyToMany
+        try:
+            with Budget(OP_BUDGET):
+                found = fail_check(ManyToMany, M2mSpec(ordered=False), [tuple(p) for p in case['state']],
+                                   [tuple(p) for p in case['good_rows']], case['failure'], case['entry'])
         except Hang:
             return ['%s: no return within %d s of CPU time' % (data.get('signature'), OP_BUDGET)]
         return ['%s expected=%r observed=%r' % f for f in found]
